@@ -15,6 +15,7 @@ import Hg.Model.Access
 import Hg.Model.NpHyp
 import Hg.Model.Frame
 import Hg.Model.Denote
+import Hg.Model.CountT
 
 namespace Hg.Proto
 open Hg Hg.Wire
@@ -402,6 +403,19 @@ def step (pool : Pool) (cmd : Json) : Pool × Json :=
           ((callCached (fun x => x) acc.1 a).2, .bool hit :: acc.2)) (none, [])
         (pool, .arr r.2.reverse)
       | none => (pool, err "bad cachedrun")
+    | "$countt", [.arr cs, .arr ws, .arr chunks, n] =>
+      -- Count(transform = polynomial cs): per-row fill, vectorised fill with a weight array, per-chunk fills,
+      -- and the scalar-weight form for a batch of n rows of the first weight
+      match cs.mapM ratOf?, ws.mapM valOf?, chunks.mapM (fun c => match c with | .arr l => l.mapM valOf? | _ => none), natOf? n with
+      | some cs, some ws, some chunks, some n =>
+        let f : Val → Rat := fun w => match w with | .fin q => CountT.poly cs q | _ => 0
+        let num (q : Rat) : Json := valToWire (.fin q)
+        (pool, .arr [num (CountT.fillAll Val.pos f 0 ws), num (CountT.fillNp Val.pos f 0 ws),
+                     .arr (chunks.map (fun c => num (CountT.fillAll Val.pos f 0 c))),
+                     match ws with
+                     | w :: _ => .arr [num (CountT.fillNpScalar Val.pos f 0 w n), num (CountT.fillAll Val.pos f 0 (List.replicate n w))]
+                     | [] => .null])
+      | _, _, _, _ => (pool, err "bad countt")
     | "$checkcross", [sh] =>
       match shapeOf? sh with
       | some t => let r := Shape.checkCross t; (pool, .arr [.bool r.2, shapeJson r.1])
